@@ -22,6 +22,7 @@ def base_cfg(draw, limits="loose", multi_strategy=True, tx_limits=(5000,), custo
     if handicaps and draw(st.integers(0, 2)) == 0:
         # asian-handicap style: the same selection id on several handicap lines
         spec["market_type"] = mt = "ASIAN_HANDICAP"
+        spec["number_of_winners"] = 0
         spec["runners"] = [{"id": 1001 + (i % 2), "hc": [-0.5, 0.5, -1.5, 1.5][i], "af": None} for i in range(nr)]
     spec["bsp_market"] = mt not in ("MATCH_ODDS", "ASIAN_HANDICAP", "LINE") and draw(st.integers(0, 3)) > 0
     spec["persistence_enabled"] = draw(st.integers(0, 5)) > 0
